@@ -295,7 +295,17 @@ namespace bloch::compiler {
                 if (fn->hasShotsAnnotation) {
                     for (std::unique_ptr<AnnotationNode>& annotation : fn->annotations) {
                         if (annotation && annotation->name == "shots") {
-                            int shotCount = std::stoi(annotation->value);
+                            // The parser only guarantees an integer literal; a value that does
+                            // not fit an int must be a diagnostic, not a raw std::out_of_range.
+                            int shotCount = 0;
+                            try {
+                                shotCount = std::stoi(annotation->value);
+                            } catch (const std::exception&) {
+                                throw BlochError(ErrorCategory::Semantic, annotation->line,
+                                                 annotation->column,
+                                                 "@shots value '" + annotation->value +
+                                                     "' is out of range");
+                            }
                             merged->shots = {true, shotCount};
                         }
                     }
